@@ -206,12 +206,20 @@ impl<T: ?Sized> RwLock<T> {
         self.data.get_mut()
     }
     fn release_read(&self) {
+        if std::thread::panicking() {
+            // the execution is failing and will be torn down; touching the scheduler from a
+            // destructor during unwinding would turn the failure into an abort
+            return;
+        }
         let mut st = self.st();
         st.readers -= 1;
         drop(st);
         self.cond.notify_all();
     }
     fn release_write(&self) {
+        if std::thread::panicking() {
+            return;
+        }
         let mut st = self.st();
         st.writer = false;
         drop(st);
